@@ -38,12 +38,14 @@ type c07Setup struct {
 	idpMethod   string
 	idpSigner   bool
 	initiated   bool
+	spInterm    bool   // sp.Intermediates set
+	xmlEntry    bool   // SP entry point ParseXMLResponse instead of ParseResponse
 	certWS      string // how certificate texts are laid out in both metadata documents ("" = single line)
 }
 
 func (s c07Setup) key() map[string]string {
 	return map[string]string{"entity_id_set": fmt.Sprint(s.entityIDSet), "sp_key": s.spKey, "encryption": fmt.Sprint(s.cert), "request_binding": s.binding,
-		"signed_request": fmt.Sprint(s.signed), "idp_method": s.idpMethod, "idp_signer": fmt.Sprint(s.idpSigner), "idp_initiated": fmt.Sprint(s.initiated), "cert_text_layout": s.certWS}
+		"signed_request": fmt.Sprint(s.signed), "idp_method": s.idpMethod, "idp_signer": fmt.Sprint(s.idpSigner), "idp_initiated": fmt.Sprint(s.initiated), "cert_text_layout": s.certWS, "sp_intermediates": fmt.Sprint(s.spInterm), "sp_entry": map[bool]string{false: "ParseResponse", true: "ParseXMLResponse"}[s.xmlEntry]}
 }
 
 func xmlReparse(ed *saml.EntityDescriptor) (*saml.EntityDescriptor, error) {
@@ -138,6 +140,9 @@ func runPipeline(setup c07Setup, sess mSession, now time.Time, relay string) (re
 		}
 		if setup.cert {
 			sp.Certificate = fix.Cert(setup.spKey)
+			if setup.spInterm {
+				sp.Intermediates = []*x509.Certificate{fix.Cert("rsa_3072")}
+			}
 		}
 		if setup.signed {
 			if strings.HasPrefix(setup.spKey, "ec") {
@@ -220,7 +225,17 @@ func runPipeline(setup c07Setup, sess mSession, now time.Time, relay string) (re
 			res.stage, res.detail = "sp-form", err.Error()
 			return
 		}
-		a, err := sp.ParseResponse(pr, ids)
+		var a *saml.Assertion
+		if setup.xmlEntry {
+			raw, derr := base64.StdEncoding.DecodeString(pr.PostForm.Get("SAMLResponse"))
+			if derr != nil {
+				res.stage, res.detail = "sp-form", derr.Error()
+				return
+			}
+			a, err = sp.ParseXMLResponse(raw, ids, *pr.URL)
+		} else {
+			a, err = sp.ParseResponse(pr, ids)
+		}
 		if err != nil {
 			res.detail = err.Error()
 			if ire, ok := err.(*saml.InvalidResponseError); ok && ire.PrivateErr != nil {
@@ -306,6 +321,7 @@ func genSetup(r *rand.Rand) c07Setup {
 	if r.Intn(3) == 0 {
 		s.certWS = pick(r, c07Layouts)
 	}
+	s.spInterm, s.xmlEntry = r.Intn(5) == 0, r.Intn(3) == 0
 	// an ECDSA SP with a certificate publishes it for signing only (fix F18) and is answered unencrypted
 	s.signed = s.cert && r.Intn(2) == 0
 	return s
